@@ -805,7 +805,8 @@ class SliceIndexer(ShapedSliceIndexer):
         if slc.stop is None and slc.step < 0:  # special backwards indexing case
             self._shaped_inst = \
                 ShapedSliceIndexer(slc)
-        elif (slc.start is not None and slc.start < 0) or slc.stop is None or slc.stop < 0:
+        elif (slc.start is not None and slc.start < 0) or slc.stop is None or slc.stop < 0 or \
+                (slc.start is None and slc.step < 0):
             self._shaped_inst = \
                 ShapedSliceIndexer(slice(*self._slice.indices(self._src_shape[0])))
         else:
